@@ -38,3 +38,18 @@ package main
 //# the chunker handed to ChunkStream was just made by NewChunker over a pipe nobody has read from yet
 //@   assume@before:ChunkStream wfChunker(&c) && len(desync.hashTable) == 256 && (forall b int :: 0 <= b && b < 256 ==> desync.hashTable[b] == tbl(b))
 //@   oncall storeCaibxFile: requires ($arg0.Index.FeatureFlags & desync.CaFormatSHA512256 != 0 <==> algOf(desync.Digest) == crypto.SHA512_256)
+
+// ---------------------------------------------------------------------------- C15
+
+//# chunk-server: the handler serving the store is built with the writable, --skip-verify-write and
+//# authorization options of this command (and no others), so uploads are checked against their ID
+//# unless write verification was switched off
+//@ func runChunkServer
+//@   prop C15
+//@   safety none
+//@   oncall NewHTTPHandler: requires $arg1 == opt.writable && $arg2 == opt.skipVerifyWrite && $arg4 == opt.auth && (opt.uncompressed ==> len($arg3) == 0)
+
+//@ func runIndexServer
+//@   prop C15
+//@   safety none
+//@   oncall NewHTTPIndexHandler: requires $arg1 == opt.writable && $arg2 == opt.auth
